@@ -52,6 +52,7 @@ class Ctx:
         self.angvals = {}        # numeric angle atom name -> (s SReal, c SReal)
         self.sign = {}           # atom name -> 'pos' | 'nonneg'
         self.no_fork = False
+        self.const_atoms = {'pi': _math.pi}   # atoms that denote a fixed real number -> its float value
         self.bounds = {}         # atom -> (lo, hi) Fractions or None
         self.poly_lower = {}     # polynomial (without constant term) -> lower bound from an assumption
         self.poly_upper = {}
@@ -213,6 +214,23 @@ def _cancel(n, d):
 
 
 ONE = Poly.const(1)
+
+
+def const_value(x):
+    """float value of x when every atom in it denotes a fixed real number (pi, sqrt(2), ...), else None"""
+    if CTX is None:
+        return None
+    ca = CTX.const_atoms
+    try:
+        for v in x.n.vars():
+            if v not in ca:
+                return None
+        for v in x.d.vars():
+            if v not in ca:
+                return None
+        return x.n.eval(ca) / x.d.eval(ca)
+    except (ZeroDivisionError, OverflowError):
+        return None
 
 
 class SReal:
@@ -408,6 +426,9 @@ class SReal:
     def __float__(self):
         if self.is_const():
             return float(self.const())
+        cv = const_value(self)
+        if cv is not None:
+            return cv
         raise Unsupported('float() of a symbolic real')
 
     def __int__(self):
@@ -467,6 +488,9 @@ class SBool:
         if diff.is_const():
             x = diff.const()
             return {'<': x < 0, '<=': x <= 0, '>': x > 0, '>=': x >= 0, '==': x == 0, '!=': x != 0}[op]
+        cv = const_value(diff)
+        if cv is not None and abs(cv) > 1e-9:
+            return {'<': cv < 0, '<=': cv <= 0, '>': cv > 0, '>=': cv >= 0, '==': False, '!=': True}[op]
         # sign knowledge: products of atoms with known sign
         sg = _known_sign(diff)
         if sg is None:
@@ -983,6 +1007,9 @@ def _sqrt_basic(x):
         CTX.atoms[key] = nm
         CTX.defs[nm] = ('sqrt', x)
         CTX.sign[nm] = 'nonneg' if not x.is_const() else 'pos'
+        cv = const_value(x)
+        if cv is not None and cv >= 0:
+            CTX.const_atoms[nm] = _math.sqrt(cv)
         if x.d.is_const():
             lo_, hi_ = poly_interval(x.n.scale(1 / x.d.const_val()))
             blo = _fsqrt_lo(lo_) if lo_ is not None else Fr(0)
@@ -1194,6 +1221,12 @@ def sincos(x):
             qi = int(Fr(a, b) * 2) % 4
             sb, cb = [(0, 1), (1, 0), (0, -1), (-1, 0)][qi]
             sb, cb = SReal.lift(sb), SReal.lift(cb)
+        elif all(v in CTX.const_atoms for v, _e in m):
+            # an angle that is a fixed real number (e.g. sqrt(2)): its sine and cosine are constants
+            v = float(k)
+            for vv, e in m:
+                v *= CTX.const_atoms[vv] ** e
+            sb, cb = SReal.lift(_math.sin(v)), SReal.lift(_math.cos(v))
         elif len(m) == 1 and m[0][1] == 1 and m[0][0] in CTX.angvals and b == 1:
             s1, c1 = CTX.angvals[m[0][0]]
             if abs(a) > MAX_MULT:
@@ -1313,6 +1346,9 @@ def atan2(y, x):
     if y.is_const() and x.is_const():
         return SReal.lift(_math.atan2(float(y.const()), float(x.const())))
     y, x = y.simp(), x.simp()
+    cy, cx = const_value(y), const_value(x)
+    if cy is not None and cx is not None and (abs(cy) > 1e-9 or abs(cx) > 1e-9):
+        return SReal.lift(_math.atan2(cy, cx))
     if (x == 0) and (y == 0):
         return SReal.lift(0)
     rho = sqrt(x * x + y * y)
@@ -1326,6 +1362,10 @@ def atan2(y, x):
 
 def acos(x):
     x = SReal.lift(x)
+    if not x.is_const():
+        cv = const_value(x)
+        if cv is not None and -1 - 1e-12 <= cv <= 1 + 1e-12:
+            return SReal.lift(_math.acos(max(-1.0, min(1.0, cv))))
     if x.is_const():
         v = x.const()
         if v == -1: return pi()
@@ -1348,6 +1388,10 @@ def acos(x):
 
 def asin(x):
     x = SReal.lift(x)
+    if not x.is_const():
+        cv = const_value(x)
+        if cv is not None and -1 - 1e-12 <= cv <= 1 + 1e-12:
+            return SReal.lift(_math.asin(max(-1.0, min(1.0, cv))))
     if x.is_const():
         v = x.const()
         if v == 1: return pi() / 2
@@ -1366,6 +1410,10 @@ def asin(x):
 
 def atan(t):
     t = SReal.lift(t)
+    if not t.is_const():
+        cv = const_value(t)
+        if cv is not None:
+            return SReal.lift(_math.atan(cv))
     if t.is_const():
         v = t.const()
         return SReal.lift(_math.atan(float(v))) if v != 0 else SReal.lift(0)
